@@ -581,3 +581,10 @@ def check(col: Collector):
     with col.rule():
         shared(col, "C04.R8", [c20._no_semantic_directives],
                why="C division neither raises ZeroDivisionError nor rounds like Python's: the documented NaN convention and Python's results are lost")
+    # round 7: the zero-division deviation covers the division only
+    from . import c18
+    from .common import shared, construct_tag
+    with col.rule():
+        shared(col, "C04.R5", [c18._no_swallowing], select=lambda o: construct_tag(o) == "documented-zero-division-guard",
+               why="operands evaluated inside the guarded block turn a ZeroDivisionError raised by an operand (0.0 ** -1, divmod(x, 0)) "
+                   "into NaN where Python raises")
